@@ -109,14 +109,42 @@ def chain_arms(first_if: ast.If) -> List[Arm]:
     else body is a single If)"""
     arms: List[Arm] = []
     cur: ast.AST = first_if
+    top: ast.AST = first_if
     while isinstance(cur, ast.If):
         arms.append(Arm(len(arms), cur.test, cur.body, cur))
         if len(cur.orelse) == 1 and isinstance(cur.orelse[0], ast.If):
             cur = cur.orelse[0]
-        else:
+            continue
+        if cur.orelse:
             arms.append(Arm(len(arms), None, cur.orelse, cur))
             break
+        # no else clause: when every arm so far leaves (return / raise / continue / break), the statements that
+        # follow the chain are its else arm - and a class test among them continues the chain (guard sequence)
+        rest = _following(top)
+        if rest and all(A.always_leaves(a.body) for a in arms):
+            nxt = rest[0]
+            if isinstance(nxt, ast.If) and ("isinstance(" in A.unparse(nxt.test) or "type(" in A.unparse(nxt.test)):
+                top = cur = nxt
+                continue
+            arms.append(Arm(len(arms), None, rest, cur))
+            break
+        arms.append(Arm(len(arms), None, [], cur))
+        break
     return arms
+
+
+def _following(st: ast.AST):
+    """the statements after st in the statement list that holds it (None when it is the last one or the list
+    cannot be found)"""
+    par = A.parent(st)
+    if par is None:
+        return None
+    for fld in ("body", "orelse", "finalbody"):
+        seq = getattr(par, fld, None)
+        if isinstance(seq, list) and any(x is st for x in seq):
+            i = next(k for k, x in enumerate(seq) if x is st)
+            return seq[i + 1:] or None
+    return None
 
 
 def dispatch(arms: List[Arm], subject: str, K: str, is_sub) -> Tuple[List[Arm], bool]:
